@@ -10,7 +10,7 @@ func init() {
 		Bounds: func(tier string) map[string]interface{} {
 			return map[string]interface{}{
 				"arbitrary_bytes_N": map[string]int{"pngmeta": 28, "jpegmeta": 12, "webpmeta": 40, "autometa": 12, "icc": 148},
-				"structured":        "PNG: symbolic IHDR/iCCP/next-chunk lengths; JPEG: SOF + 2 APP2 ICC segments with symbolic chunk number in {0..4,255} and total in {0..3,255}; WebP: VP8X(flag)+ICCP with symbolic lengths; ICC: symbolic tag count + k<=2 entries with symbolic offset/size + 8 data bytes; desc: symbolic ASCII count; mluc: symbolic record count/size + <=1 record with symbolic length/offset",
+				"structured":        "PNG: symbolic IHDR/iCCP/next-chunk lengths; JPEG: SOF + 2 APP2 ICC segments with symbolic chunk number in {0..4,255} and total in {0..3,255}; WebP: VP8X(flag)+ICCP with symbolic lengths; ICC: symbolic tag count + k<=2 entries with symbolic offset/size + 8 data bytes; desc: symbolic ASCII count; mluc: (a) symbolic record count+size with one well-formed record, (b) one record with unconstrained 32-bit length and offset, (c) two records with unconstrained record size; string content concrete (the property does not depend on it)",
 				"budget":            "allocated bytes <= 16*N + 131072; SSA instructions <= 4000*N + 200000 (autometa: N counted three times, one per loader)",
 				"zlib":              "stub; its output (5 symbolic bytes) is excluded from the claim (decompression ratio is the library's)",
 				"outside":           "inputs longer than N, more than 2 tag entries / 1 mluc record / 2 ICC segments, wall-clock time (SSA instruction count is the proxy), allocator overhead",
